@@ -12,10 +12,11 @@ Import ListNotations.
 Definition same_frame (e e' : exec) : Prop :=
   current e' = current e /\ next e' = next e /\ recorded e' = recorded e
   /\ ctx_switches e' = ctx_switches e /\ live e' = live e
-  /\ panicking e' = panicking e /\ in_cleanup e' = in_cleanup e
+  /\ (panicking e = true -> panicking e' = true) /\ in_cleanup e' = in_cleanup e
   /\ length (tasks e') = length (tasks e)
   /\ (forall t tk tk', get_task e t = Some tk -> get_task e' t = Some tk' -> is_finished tk' = is_finished tk)
-  /\ steps_reset_at e' <= length (recorded e').
+  /\ steps_reset_at e' <= length (recorded e')
+  /\ steps_reset_at e <= steps_reset_at e'.
 
 Definition atomic_ok (f : exec -> store -> option (exec * store * list N)) : Prop :=
   forall e s e' s' a, steps_reset_at e <= length (recorded e) -> f e s = Some (e', s', a) -> same_frame e e'.
